@@ -1,6 +1,6 @@
 (* NreplProps.v -- invariants of the transition system of Nrepl.v, proved by
    induction over arbitrary traces (= all interleavings, unbounded inputs),
-   for both code variants (fx = false: as found; fx = true: with fix-1). *)
+   for both code variants (pv = false: as found; pv = true: with fix-1). *)
 From Coq Require Import List Arith Bool Lia.
 Import ListNotations.
 From Garden Require Import Nrepl.
@@ -157,48 +157,48 @@ Ltac eqb_simp :=
 
 (* ---- worker: local facts ---- *)
 
-Lemma worker_swf : forall fx k s a s' e, swf s -> worker_step fx k s a = Some (s', e) -> swf s'.
+Lemma worker_swf : forall pv k s a s' e, swf s -> worker_step pv k s a = Some (s', e) -> swf s'.
 Proof.
-  intros fx k s a s' e W H. unfold worker_step in H. unfold swf in *.
+  intros pv k s a s' e W H. unfold worker_step in H. unfold swf in *.
   inv_step H; split_all; simpl in *; split_all; rw_eqs; simpl;
     repeat split; eauto; try congruence.
 Qed.
 
-Lemma worker_cnt : forall fx k s a s' e r, worker_step fx k s a = Some (s', e) ->
+Lemma worker_cnt : forall pv k s a s' e r, worker_step pv k s a = Some (s', e) ->
   sess_cnt r s' + eff_done r e = sess_cnt r s.
 Proof.
-  intros fx k s a s' e r H. unfold worker_step in H. unfold sess_cnt, cur_cnt.
+  intros pv k s a s' e r H. unfold worker_step in H. unfold sess_cnt, cur_cnt.
   inv_step H; split_all; simpl in *; rw_eqs; simpl;
     repeat match goal with E : s_queue ?s = _ |- context [s_queue ?s] => rewrite E end; simpl; try lia.
 Qed.
 
-Lemma worker_sender_live : forall fx k s a s' m, worker_step fx k s a = Some (s', ESend m) ->
+Lemma worker_sender_live : forall pv k s a s' m, worker_step pv k s a = Some (s', ESend m) ->
   sess_cnt (mid m) s >= 1.
 Proof.
-  intros fx k s a s' m H. unfold worker_step in H. unfold sess_cnt, cur_cnt.
+  intros pv k s a s' m H. unfold worker_step in H. unfold sess_cnt, cur_cnt.
   inv_step H; simpl in *; rw_eqs; simpl; eqb_simp; lia.
 Qed.
 
-Lemma worker_out : forall fx k s a s' e r x, swf s -> worker_step fx k s a = Some (s', e) ->
+Lemma worker_out : forall pv k s a s' e r x, swf s -> worker_step pv k s a = Some (s', e) ->
   eff_toks k r x e ++ pend s' r x = pend s r x ++ eff_ptoks k r x e.
 Proof.
-  intros fx k s a s' e r x W H. unfold worker_step in H. unfold swf in W.
+  intros pv k s a s' e r x W H. unfold worker_step in H. unfold swf in W.
   unfold pend, flinfl, winfl, eff_toks, eff_ptoks.
   inv_step H; split_all; simpl in *; split_all; rw_eqs; simpl; eqb_simp; simpl;
     case_goal; rewrite ?app_nil_r, <- ?app_assoc; simpl in *; auto; try congruence.
 Qed.
 
-Lemma worker_tag : forall fx k s a s' m, worker_step fx k s a = Some (s', ESend m) ->
+Lemma worker_tag : forall pv k s a s' m, worker_step pv k s a = Some (s', ESend m) ->
   forall j r x, j <> k -> toks j r x [m] = [].
 Proof.
-  intros fx k s a s' m H j r x Hj. unfold worker_step in H.
+  intros pv k s a s' m H j r x Hj. unfold worker_step in H.
   inv_step H; simpl; auto; apply Nat.eqb_neq in Hj; rewrite Nat.eqb_sym, Hj; reflexivity.
 Qed.
 
-Lemma worker_env : forall fx k s a s' e d, worker_step fx k s a = Some (s', e) ->
+Lemma worker_env : forall pv k s a s' e d, worker_step pv k s a = Some (s', e) ->
   In d (s_env s') -> In d (s_env s) \/ e = EDef d.
 Proof.
-  intros fx k s a s' e d H. unfold worker_step in H.
+  intros pv k s a s' e d H. unfold worker_step in H.
   inv_step H; split_all; simpl; auto. intros [->|]; auto.
 Qed.
 
@@ -345,7 +345,7 @@ Proof.
     + pose proof (inv_env st I _ _ _ Hj Hd). destruct e; simpl; auto.
 Qed.
 
-Lemma worker_local_ok : forall fx k s a s' e, swf s -> worker_step fx k s a = Some (s', e) -> local_ok k s s' e.
+Lemma worker_local_ok : forall pv k s a s' e, swf s -> worker_step pv k s a = Some (s', e) -> local_ok k s s' e.
 Proof.
   intros. constructor; intros; subst.
   - eapply worker_swf; eauto.
@@ -416,9 +416,9 @@ Qed.
 Lemma open_sess_some : forall st k s, open_sess st k = Some s -> nth_error (st_sess st) k = Some s.
 Proof. unfold open_sess. intros st k s H. destruct (nth_error (st_sess st) k); try discriminate. destruct (s_open s0); congruence. Qed.
 
-Lemma reader_preserves : forall fx st a st', Inv st -> reader_step fx st a = Some st' -> Inv st'.
+Lemma reader_preserves : forall pv st a st', Inv st -> reader_step pv st a = Some st' -> Inv st'.
 Proof.
-  intros fx st a st' I H. unfold reader_step in H.
+  intros pv st a st' I H. unfold reader_step in H.
   destruct a; destruct (st_rd st) eqn:Erd; try discriminate.
   - (* RAEnq *) destruct o; try discriminate. destruct (open_sess st k) eqn:Eo; try discriminate.
     inversion H; subst; clear H. apply open_sess_some in Eo.
@@ -427,14 +427,19 @@ Proof.
   - (* RAUnknown *) destruct (op_session o); try discriminate. destruct (open_sess st s); try discriminate.
     inversion H; subst; clear H. apply rd_pc_preserves; auto. intros; rewrite Erd; reflexivity.
   - (* RAFlag, RGot *) destruct o; try discriminate.
-    + destruct (open_sess st k) eqn:Eo; try discriminate. inversion H; subst; clear H. apply open_sess_some in Eo.
+    + destruct (open_sess st k) eqn:Eo; try discriminate.
+      destruct (counts pv && (s_pending s =? 0)); try discriminate.
+      inversion H; subst; clear H. apply open_sess_some in Eo.
       eapply rd_sess_preserves; eauto. intros r0. rewrite Erd. reflexivity.
-    + destruct fx; try discriminate. destruct (open_sess st k) eqn:Eo; try discriminate.
+    + destruct (has_closed pv); try discriminate. destruct (open_sess st k) eqn:Eo; try discriminate.
       inversion H; subst; clear H. apply open_sess_some in Eo.
       eapply rd_sess_preserves; eauto. intros r0. rewrite Erd. reflexivity.
   - (* RAFlag, RCloseFlag *) destruct (nth_error (st_sess st) k) eqn:Eo; try discriminate.
     inversion H; subst; clear H. eapply rd_sess_preserves; eauto. intros r0. rewrite Erd. reflexivity.
-  - (* RAClosed *) destruct o; try discriminate. destruct fx; try discriminate.
+  - (* RAIgnore *) destruct o; try discriminate. destruct (open_sess st k) eqn:Eo; try discriminate.
+    destruct (counts pv && (s_pending s =? 0)); try discriminate.
+    inversion H; subst; clear H. apply rd_pc_preserves; auto. intros; rewrite Erd; reflexivity.
+  - (* RAClosed *) destruct o; try discriminate. destruct (has_closed pv); try discriminate.
     destruct (open_sess st k) eqn:Eo; try discriminate. inversion H; subst; clear H. apply open_sess_some in Eo.
     eapply rd_sess_preserves; eauto. intros r0. rewrite Erd. reflexivity.
   - (* RADrop *) destruct (nth_error (st_sess st) k) eqn:Eo; try discriminate.
@@ -465,9 +470,9 @@ Proof.
     + split; [exact Hd | apply (inv_wfs st I)].
 Qed.
 
-Lemma step_preserves : forall fx st l st', Inv st -> step fx st l = Some st' -> Inv st'.
+Lemma step_preserves : forall pv st l st', Inv st -> step pv st l = Some st' -> Inv st'.
 Proof.
-  intros fx st l st' I H. destruct l; simpl in H.
+  intros pv st l st' I H. destruct l; simpl in H.
   - (* LRecv *) destruct (st_rd st) eqn:Erd; try discriminate. inversion H; subst; clear H.
     constructor; simpl; try apply I.
     intros r. pose proof (inv_cnt st I r) as H1. unfold live_cnt in *. simpl. rewrite Erd in H1. simpl in H1.
@@ -476,7 +481,7 @@ Proof.
     + destruct (Nat.ltb_spec r (st_next st)); destruct (Nat.ltb_spec r (S (st_next st))); lia.
   - eapply reader_preserves; eauto.
   - destruct (nth_error (st_sess st) k) eqn:Ek; try discriminate.
-    destruct (worker_step fx k s a) as [[s' e]|] eqn:Ew; try discriminate. inversion H; subst; clear H.
+    destruct (worker_step pv k s a) as [[s' e]|] eqn:Ew; try discriminate. inversion H; subst; clear H.
     eapply local_preserves; eauto. eapply worker_local_ok; eauto. apply (inv_swf st I _ _ Ek).
   - destruct (nth_error (st_sess st) k) eqn:Ek; try discriminate.
     destruct (flusher_step k s a) as [[s' e]|] eqn:Ew; try discriminate. inversion H; subst; clear H.
@@ -484,19 +489,20 @@ Proof.
   - (* LWriter *) destruct (st_chan st) eqn:Ec; try discriminate. inversion H; subst; clear H.
     constructor; simpl; try apply I.
     rewrite (inv_tie st I), Ec, <- app_assoc. reflexivity.
-  - (* LSigint *) destruct (nth_error (st_sess st) k) eqn:Ek; try discriminate. inversion H; subst; clear H.
+  - (* LSigint *) destruct (nth_error (st_sess st) k) eqn:Ek; try discriminate.
+    destruct (counts pv && (s_pending s =? 0)); inversion H; subst; clear H; auto.
     eapply rd_sess_preserves; eauto.
 Qed.
 
-Lemma exec_preserves : forall fx tr st st', Inv st -> exec fx st tr = Some st' -> Inv st'.
+Lemma exec_preserves : forall pv tr st st', Inv st -> exec pv st tr = Some st' -> Inv st'.
 Proof.
   induction tr as [|l tr IH]; simpl; intros st st' I H.
   - inversion H; subst; auto.
-  - destruct (step fx st l) eqn:E; try discriminate. eapply IH; [|eauto]. eapply step_preserves; eauto.
+  - destruct (step pv st l) eqn:E; try discriminate. eapply IH; [|eauto]. eapply step_preserves; eauto.
 Qed.
 
-Theorem reachable_inv : forall fx st, reachable fx st -> Inv st.
-Proof. intros fx st [tr H]. eapply exec_preserves; [apply init_inv | eauto]. Qed.
+Theorem reachable_inv : forall pv st, reachable pv st -> Inv st.
+Proof. intros pv st [tr H]. eapply exec_preserves; [apply init_inv | eauto]. Qed.
 
 (* ------------------------------------------------------------------ *)
 (* C30: consequences of the invariant                                  *)
@@ -528,13 +534,13 @@ Proof.
     intros m' [->|Hin]; auto. rewrite done_cnt_app in H0. lia.
 Qed.
 
-Lemma one_done_sent : forall fx st r, reachable fx st -> done_cnt r (st_sent st) <= 1.
-Proof. intros fx st r R. pose proof (cnt_le1 st r (reachable_inv fx st R)). lia. Qed.
+Lemma one_done_sent : forall pv st r, reachable pv st -> done_cnt r (st_sent st) <= 1.
+Proof. intros pv st r R. pose proof (cnt_le1 st r (reachable_inv pv st R)). lia. Qed.
 
-Lemma one_done_wire : forall fx st r, reachable fx st -> done_cnt r (st_wire st) <= 1.
+Lemma one_done_wire : forall pv st r, reachable pv st -> done_cnt r (st_wire st) <= 1.
 Proof.
-  intros fx st r R. pose proof (one_done_sent fx st r R) as H.
-  rewrite (sent_split st (reachable_inv fx st R)), done_cnt_app in H. lia.
+  intros pv st r R. pose proof (one_done_sent pv st r R) as H.
+  rewrite (sent_split st (reachable_inv pv st R)), done_cnt_app in H. lia.
 Qed.
 
 Lemma quiescent_live0 : forall st r, quiescent st = true -> live_cnt r st = 0.
@@ -546,42 +552,42 @@ Proof.
   destruct (s_w s); try discriminate; destruct (s_queue s); try discriminate; reflexivity.
 Qed.
 
-Lemma exactly_one_done_quiescent : forall fx st r, reachable fx st -> quiescent st = true ->
+Lemma exactly_one_done_quiescent : forall pv st r, reachable pv st -> quiescent st = true ->
   r < st_next st -> done_cnt r (st_wire st) = 1.
 Proof.
-  intros fx st r R Q Hr. pose proof (reachable_inv fx st R) as I.
+  intros pv st r R Q Hr. pose proof (reachable_inv pv st R) as I.
   pose proof (inv_cnt st I r) as H. rewrite (quiescent_live0 st r Q) in H.
   destruct (Nat.ltb_spec r (st_next st)); try lia.
   rewrite (sent_split st I) in H. unfold quiescent in Q.
   destruct (st_rd st); try discriminate. destruct (st_chan st); try discriminate. simpl in H. exact H.
 Qed.
 
-Lemma no_done_unreceived : forall fx st r, reachable fx st -> st_next st <= r -> done_cnt r (st_sent st) = 0.
+Lemma no_done_unreceived : forall pv st r, reachable pv st -> st_next st <= r -> done_cnt r (st_sent st) = 0.
 Proof.
-  intros fx st r R Hr. pose proof (inv_cnt st (reachable_inv fx st R) r) as H.
+  intros pv st r R Hr. pose proof (inv_cnt st (reachable_inv pv st R) r) as H.
   destruct (Nat.ltb_spec r (st_next st)); lia.
 Qed.
 
-Lemma done_last_sent : forall fx st a r s older, reachable fx st ->
+Lemma done_last_sent : forall pv st a r s older, reachable pv st ->
   st_sent st = a ++ MDone r s :: older -> forall m, In m a -> mid m <> r.
 Proof.
-  intros fx st a r s older R E m Hm Heq. pose proof (inv_wfs st (reachable_inv fx st R)) as W.
+  intros pv st a r s older R E m Hm Heq. pose proof (inv_wfs st (reachable_inv pv st R)) as W.
   rewrite E in W. destruct (wf_sent_app a _ W) as [H _]. specialize (H m Hm).
   simpl in H. rewrite Heq, Nat.eqb_refl in H. lia.
 Qed.
 
-Lemma done_last_wire : forall fx st a r s older, reachable fx st ->
+Lemma done_last_wire : forall pv st a r s older, reachable pv st ->
   st_wire st = a ++ MDone r s :: older -> forall m, In m a -> mid m <> r.
 Proof.
-  intros fx st a r s older R E m Hm. pose proof (sent_split st (reachable_inv fx st R)) as S.
-  rewrite E, app_assoc in S. eapply (done_last_sent fx st _ r s older R S). apply in_or_app. auto.
+  intros pv st a r s older R E m Hm. pose proof (sent_split st (reachable_inv pv st R)) as S.
+  rewrite E, app_assoc in S. eapply (done_last_sent pv st _ r s older R S). apply in_or_app. auto.
 Qed.
 
-Lemma output_before_done_sent : forall fx st pre r s older k x, reachable fx st ->
+Lemma output_before_done_sent : forall pv st pre r s older k x, reachable pv st ->
   st_sent st = pre ++ MDone r s :: older ->
   ptoks k r x (st_printed st) = toks k r x older.
 Proof.
-  intros fx st pre r s older k x R E. pose proof (reachable_inv fx st R) as I.
+  intros pv st pre r s older k x R E. pose proof (reachable_inv pv st R) as I.
   assert (Hpre : toks k r x pre = []).
   { apply toks_no_id. intros m Hm. eapply done_last_sent; eauto. }
   assert (Hsent : toks k r x (st_sent st) = toks k r x older).
@@ -599,11 +605,11 @@ Proof.
     rewrite F1. rewrite Hsent in F2. auto.
 Qed.
 
-Lemma output_before_done_wire : forall fx st a r s older k x, reachable fx st ->
+Lemma output_before_done_wire : forall pv st a r s older k x, reachable pv st ->
   st_wire st = a ++ MDone r s :: older ->
   ptoks k r x (st_printed st) = toks k r x older.
 Proof.
-  intros fx st a r s older k x R E. pose proof (sent_split st (reachable_inv fx st R)) as S.
+  intros pv st a r s older k x R E. pose proof (sent_split st (reachable_inv pv st R)) as S.
   rewrite E, app_assoc in S. eapply output_before_done_sent; eauto.
 Qed.
 
@@ -612,58 +618,59 @@ Qed.
 Lemma upd_frame : forall A (l : list A) k j v, j <> k -> nth_error (upd k v l) j = nth_error l j.
 Proof. intros. apply nth_upd_other; auto. Qed.
 
-Lemma worker_frame : forall fx st k a st' j, step fx st (LWorker k a) = Some st' -> j <> k ->
+Lemma worker_frame : forall pv st k a st' j, step pv st (LWorker k a) = Some st' -> j <> k ->
   nth_error (st_sess st') j = nth_error (st_sess st) j.
 Proof.
-  intros fx st k a st' j H Hj. simpl in H. destruct (nth_error (st_sess st) k); try discriminate.
-  destruct (worker_step fx k s a) as [[s' e]|]; try discriminate. inversion H; subst.
+  intros pv st k a st' j H Hj. simpl in H. destruct (nth_error (st_sess st) k); try discriminate.
+  destruct (worker_step pv k s a) as [[s' e]|]; try discriminate. inversion H; subst.
   destruct e; simpl; apply nth_upd_other; auto.
 Qed.
 
-Lemma flusher_frame : forall fx st k a st' j, step fx st (LFlusher k a) = Some st' -> j <> k ->
+Lemma flusher_frame : forall pv st k a st' j, step pv st (LFlusher k a) = Some st' -> j <> k ->
   nth_error (st_sess st') j = nth_error (st_sess st) j.
 Proof.
-  intros fx st k a st' j H Hj. simpl in H. destruct (nth_error (st_sess st) k); try discriminate.
+  intros pv st k a st' j H Hj. simpl in H. destruct (nth_error (st_sess st) k); try discriminate.
   destruct (flusher_step k s a) as [[s' e]|]; try discriminate. inversion H; subst.
   destruct e; simpl; apply nth_upd_other; auto.
 Qed.
 
-Lemma defs_step : forall fx st l st' k d, step fx st l = Some st' -> In (k, d) (st_defs st') ->
+Lemma defs_step : forall pv st l st' k d, step pv st l = Some st' -> In (k, d) (st_defs st') ->
   In (k, d) (st_defs st) \/ l = LWorker k (WADefine d).
 Proof.
-  intros fx st l st' k d H Hin. destruct l; simpl in H.
+  intros pv st l st' k d H Hin. destruct l; simpl in H.
   - destruct (st_rd st); try discriminate. inversion H; subst; auto.
   - unfold reader_step in H. inv_step H; simpl in *; auto.
   - destruct (nth_error (st_sess st) k0); try discriminate.
-    destruct (worker_step fx k0 s a) as [[s' e]|] eqn:Ew; try discriminate. inversion H; subst.
+    destruct (worker_step pv k0 s a) as [[s' e]|] eqn:Ew; try discriminate. inversion H; subst.
     destruct e; simpl in *; auto. destruct Hin as [Heq|]; auto. inversion Heq; subst.
     right. unfold worker_step in Ew. inv_step Ew. reflexivity.
   - destruct (nth_error (st_sess st) k0); try discriminate.
     destruct (flusher_step k0 s a) as [[s' e]|] eqn:Ew; try discriminate. inversion H; subst.
     destruct e; simpl in *; auto. unfold flusher_step in Ew. inv_step Ew.
   - destruct (st_chan st); try discriminate. inversion H; subst; auto.
-  - destruct (nth_error (st_sess st) k0); try discriminate. inversion H; subst; auto.
+  - destruct (nth_error (st_sess st) k0); try discriminate.
+    match type of H with context [if ?b then _ else _] => destruct b end; inversion H; subst; auto.
 Qed.
 
-Lemma defs_provenance : forall fx tr st st' k d, exec fx st tr = Some st' -> In (k, d) (st_defs st') ->
+Lemma defs_provenance : forall pv tr st st' k d, exec pv st tr = Some st' -> In (k, d) (st_defs st') ->
   In (k, d) (st_defs st) \/ In (LWorker k (WADefine d)) tr.
 Proof.
   induction tr as [|l tr IH]; simpl; intros st st' k d H Hin.
   - inversion H; subst; auto.
-  - destruct (step fx st l) eqn:E; try discriminate. destruct (IH _ _ _ _ H Hin) as [H1|H1]; auto.
+  - destruct (step pv st l) eqn:E; try discriminate. destruct (IH _ _ _ _ H Hin) as [H1|H1]; auto.
     destruct (defs_step _ _ _ _ _ _ E H1); auto.
 Qed.
 
-Lemma sees_only_own_defs : forall fx tr st k d st', exec fx init tr = Some st ->
-  step fx st (LWorker k (WASees d)) = Some st' -> In (LWorker k (WADefine d)) tr.
+Lemma sees_only_own_defs : forall pv tr st k d st', exec pv init tr = Some st ->
+  step pv st (LWorker k (WASees d)) = Some st' -> In (LWorker k (WADefine d)) tr.
 Proof.
-  intros fx tr st k d st' Hx Hs. pose proof (reachable_inv fx st (ex_intro _ tr Hx)) as I.
+  intros pv tr st k d st' Hx Hs. pose proof (reachable_inv pv st (ex_intro _ tr Hx)) as I.
   simpl in Hs. destruct (nth_error (st_sess st) k) eqn:Ek; try discriminate.
-  destruct (worker_step fx k s (WASees d)) as [[s' e]|] eqn:Ew; [|unfold worker_step in Ew; rewrite Ew in Hs; discriminate].
+  destruct (worker_step pv k s (WASees d)) as [[s' e]|] eqn:Ew; [|unfold worker_step in Ew; rewrite Ew in Hs; discriminate].
   unfold worker_step in Ew. destruct (s_w s); try discriminate. destruct (memb d (s_env s)) eqn:Em; try discriminate.
   unfold memb in Em. apply existsb_exists in Em. destruct Em as [d' [Hin Heq]]. apply Nat.eqb_eq in Heq. subst d'.
   pose proof (inv_env st I k s d Ek Hin) as Hd.
-  destruct (defs_provenance fx tr init st k d Hx Hd) as [H|H]; auto. simpl in H. contradiction.
+  destruct (defs_provenance pv tr init st k d Hx Hd) as [H|H]; auto. simpl in H. contradiction.
 Qed.
 
 (* ------------------------------------------------------------------ *)
@@ -671,16 +678,16 @@ Qed.
 
 (* what a reader step may do to a session record *)
 Definition rd_change (s s' : session) (flagset : bool) : Prop :=
-  s' = s \/ (exists q, s' = set_queue s q) \/ (s' = set_flag s true /\ flagset = true) \/
+  s' = s \/ (exists q p, s' = set_pending (set_queue s q) p) \/ (s' = set_flag s true /\ flagset = true) \/
   s' = set_closed s true \/ s' = set_open s false.
 
 (* how session k evolves under one step *)
-Definition sess_change (fx : bool) (st : state) (l : label) (k : sid) (s s' : session) : Prop :=
+Definition sess_change (pv : ver) (st : state) (l : label) (k : sid) (s s' : session) : Prop :=
   match l with
-  | LWorker k' a => if Nat.eqb k' k then exists e, worker_step fx k s a = Some (s', e) else s' = s
+  | LWorker k' a => if Nat.eqb k' k then exists e, worker_step pv k s a = Some (s', e) else s' = s
   | LFlusher k' a => if Nat.eqb k' k then exists e, flusher_step k s a = Some (s', e) else s' = s
   | LReader _ => rd_change s s' (is_flagset k st l)
-  | LSigint k' => if Nat.eqb k' k then s' = set_flag s true else s' = s
+  | LSigint k' => if Nat.eqb k' k then (s' = set_flag s true \/ s' = s) else s' = s
   | LRecv _ | LWriter => s' = s
   end.
 
@@ -690,10 +697,10 @@ Proof. intros. rewrite nth_error_app1; auto. eapply nth_lt; eauto. Qed.
 Ltac upd_case k0 k Hk0 :=
   rewrite (nth_upd _ _ _ k _ _ Hk0); destruct (Nat.eqb_spec k k0); [subst k0 | ].
 
-Lemma step_session : forall fx st l st' k s, step fx st l = Some st' -> nth_error (st_sess st) k = Some s ->
-  exists s', nth_error (st_sess st') k = Some s' /\ sess_change fx st l k s s'.
+Lemma step_session : forall pv st l st' k s, step pv st l = Some st' -> nth_error (st_sess st) k = Some s ->
+  exists s', nth_error (st_sess st') k = Some s' /\ sess_change pv st l k s s'.
 Proof.
-  intros fx st l st' k s H Hk. destruct l; simpl in H.
+  intros pv st l st' k s H Hk. destruct l; simpl in H.
   - destruct (st_rd st); try discriminate. inversion H; subst. simpl. eauto.
   - unfold sess_change, is_flagset. unfold reader_step in H.
     destruct a; destruct (st_rd st) eqn:Erd; try discriminate;
@@ -707,9 +714,9 @@ Proof.
              [ subst; rewrite Hk in Hj; inversion Hj; subst; eexists; split; [reflexivity|]
              | eexists; split; [eassumption | left; reflexivity] ] end);
       try (eexists; split; [apply nth_app_l; eassumption | left; reflexivity]);
-      unfold rd_change; rewrite ?Nat.eqb_refl; eauto 6.
+      unfold rd_change; rewrite ?Nat.eqb_refl; eauto 7.
   - destruct (nth_error (st_sess st) k0) eqn:Ek0; try discriminate.
-    destruct (worker_step fx k0 s0 a) as [[s' e]|] eqn:Ew; try discriminate. inversion H; subst; clear H.
+    destruct (worker_step pv k0 s0 a) as [[s' e]|] eqn:Ew; try discriminate. inversion H; subst; clear H.
     assert (Hss : st_sess (apply_eff st k0 s' e) = upd k0 s' (st_sess st)) by (destruct e; reflexivity).
     rewrite Hss. unfold sess_change. rewrite (nth_upd _ _ _ k _ _ Ek0). rewrite (Nat.eqb_sym k0 k).
     destruct (Nat.eqb_spec k k0).
@@ -723,54 +730,64 @@ Proof.
     + subst. rewrite Hk in Ek0. inversion Ek0; subst. eauto.
     + eauto.
   - destruct (st_chan st); try discriminate. inversion H; subst. simpl. eauto.
-  - destruct (nth_error (st_sess st) k0) eqn:Ek0; try discriminate. inversion H; subst; clear H. simpl.
-    rewrite (nth_upd _ _ _ k _ _ Ek0). rewrite (Nat.eqb_sym k0 k). destruct (Nat.eqb_spec k k0).
-    + subst. rewrite Hk in Ek0. inversion Ek0; subst. eauto.
-    + eauto.
+  - destruct (nth_error (st_sess st) k0) eqn:Ek0; try discriminate.
+    match type of H with context [if ?b then _ else _] => destruct b end; inversion H; subst; clear H; simpl.
+    + exists s. split; auto. destruct (Nat.eqb k0 k); auto.
+    + rewrite (nth_upd _ _ _ k _ _ Ek0). rewrite (Nat.eqb_sym k0 k). destruct (Nat.eqb_spec k k0).
+      * subst. rewrite Hk in Ek0. inversion Ek0; subst. eauto.
+      * eauto.
 Qed.
 
 Lemma flusher_same : forall k s a s' e, flusher_step k s a = Some (s', e) ->
   s_flag s' = s_flag s /\ s_w s' = s_w s /\ s_closed s' = s_closed s.
 Proof. intros k s a s' e H. unfold flusher_step in H. inv_step H; split_all; simpl; auto. Qed.
 
-Lemma worker_flag_true : forall fx k s a s' e, worker_step fx k s a = Some (s', e) ->
-  s_flag s = true -> a <> WAReset -> a <> WACheck -> s_flag s' = true.
-Proof. intros fx k s a s' e H F N1 N2. unfold worker_step in H. inv_step H; split_all; simpl; auto; congruence. Qed.
+Lemma worker_flag_true : forall pv k s a s' e, worker_step pv k s a = Some (s', e) ->
+  s_flag s = true -> a <> WAReset -> a <> WACheck -> a <> WADone -> s_flag s' = true.
+Proof. intros pv k s a s' e H F N1 N2 N3. unfold worker_step in H. inv_step H; split_all; simpl; auto; congruence. Qed.
 
-Lemma worker_flag_false : forall fx k s a s' e, worker_step fx k s a = Some (s', e) ->
+(* finish_request keeps the flag while another request of the session is pending *)
+Lemma worker_done_keeps : forall pv k s s' e, worker_step pv k s WADone = Some (s', e) ->
+  2 <= s_pending s -> s_flag s' = s_flag s.
+Proof.
+  intros pv k s s' e H P. unfold worker_step in H. destruct (s_w s); try discriminate.
+  destruct (s_pending s) as [|[|p]]; try lia. simpl in H. inversion H; subst. reflexivity.
+Qed.
+
+Lemma worker_flag_false : forall pv k s a s' e, worker_step pv k s a = Some (s', e) ->
   s_flag s = false -> a <> WAReflag -> s_flag s' = false.
-Proof. intros fx k s a s' e H F N1. unfold worker_step in H. inv_step H; split_all; simpl; auto; congruence. Qed.
+Proof. intros pv k s a s' e H F N1. unfold worker_step in H. inv_step H; split_all; simpl; auto; congruence. Qed.
 
-Lemma worker_closed_same : forall fx k s a s' e, worker_step fx k s a = Some (s', e) -> s_closed s' = s_closed s.
-Proof. intros fx k s a s' e H. unfold worker_step in H. inv_step H; split_all; simpl; auto. Qed.
+Lemma worker_closed_same : forall pv k s a s' e, worker_step pv k s a = Some (s', e) -> s_closed s' = s_closed s.
+Proof. intros pv k s a s' e H. unfold worker_step in H. inv_step H; split_all; simpl; auto. Qed.
 
 Lemma rd_change_same : forall s s' b, rd_change s s' b -> s_w s' = s_w s /\ (s_flag s = true -> s_flag s' = true) /\
   (b = false -> s_flag s' = s_flag s) /\ (s_closed s = true -> s_closed s' = true).
 Proof.
-  intros s s' b [->|[[q ->]|[[-> Hb]|[->| ->]]]]; simpl; repeat split; auto; congruence.
+  intros s s' b [->|[[q [p ->]]|[[-> Hb]|[->| ->]]]]; simpl; repeat split; auto; congruence.
 Qed.
 
-(* only the worker's own reset and check clear the flag *)
-Lemma flag_stays_true : forall fx st l st' k, step fx st l = Some st' -> flag_of st k = Some true ->
-  l <> LWorker k WAReset -> l <> LWorker k WACheck -> flag_of st' k = Some true.
+(* only the worker's own reset (old protocol), check and finish_request clear the flag *)
+Lemma flag_stays_true : forall pv st l st' k, step pv st l = Some st' -> flag_of st k = Some true ->
+  l <> LWorker k WAReset -> l <> LWorker k WACheck -> l <> LWorker k WADone -> flag_of st' k = Some true.
 Proof.
-  intros fx st l st' k H F N1 N2. unfold flag_of in *. destruct (nth_error (st_sess st) k) as [s|] eqn:Ek; try discriminate.
-  destruct (step_session fx st l st' k s H Ek) as [s' [Ek' C]]. rewrite Ek'. inversion F as [F'].
+  intros pv st l st' k H F N1 N2 N3. unfold flag_of in *. destruct (nth_error (st_sess st) k) as [s|] eqn:Ek; try discriminate.
+  destruct (step_session pv st l st' k s H Ek) as [s' [Ek' C]]. rewrite Ek'. inversion F as [F'].
   f_equal. destruct l; simpl in C; subst; auto.
   - apply rd_change_same in C. destruct C as [_ [C _]]. rewrite F'. auto.
   - destruct (Nat.eqb_spec k0 k); subst; auto. destruct C as [e C].
     rewrite F'. eapply worker_flag_true; eauto; congruence.
   - destruct (Nat.eqb_spec k0 k); subst; auto. destruct C as [e C].
     apply flusher_same in C. destruct C as [C _]. congruence.
-  - destruct (Nat.eqb k0 k); subst; auto.
+  - destruct (Nat.eqb k0 k); [destruct C|]; subst; auto.
 Qed.
 
 (* only stores of `true` (interrupt, close, SIGINT, fix-1 re-raise) set it *)
-Lemma flag_stays_false : forall fx st l st' k, step fx st l = Some st' -> flag_of st k = Some false ->
+Lemma flag_stays_false : forall pv st l st' k, step pv st l = Some st' -> flag_of st k = Some false ->
   is_flagset k st l = false -> flag_of st' k = Some false.
 Proof.
-  intros fx st l st' k H F N. unfold flag_of in *. destruct (nth_error (st_sess st) k) as [s|] eqn:Ek; try discriminate.
-  destruct (step_session fx st l st' k s H Ek) as [s' [Ek' C]]. rewrite Ek'. inversion F as [F'].
+  intros pv st l st' k H F N. unfold flag_of in *. destruct (nth_error (st_sess st) k) as [s|] eqn:Ek; try discriminate.
+  destruct (step_session pv st l st' k s H Ek) as [s' [Ek' C]]. rewrite Ek'. inversion F as [F'].
   f_equal. destruct l; simpl in C; subst; auto.
   - apply rd_change_same in C. destruct C as [_ [_ [C _]]]. rewrite F'. rewrite <- F'. auto.
   - destruct (Nat.eqb_spec k0 k); subst; auto. destruct C as [e C].
@@ -780,37 +797,38 @@ Proof.
   - simpl in N. rewrite N in C. subst; auto.
 Qed.
 
-Lemma flag_true_until : forall fx tr st st' k, exec fx st tr = Some st' -> flag_of st k = Some true ->
-  (forall l, In l tr -> l <> LWorker k WAReset /\ l <> LWorker k WACheck) -> flag_of st' k = Some true.
+Lemma flag_true_until : forall pv tr st st' k, exec pv st tr = Some st' -> flag_of st k = Some true ->
+  (forall l, In l tr -> l <> LWorker k WAReset /\ l <> LWorker k WACheck /\ l <> LWorker k WADone) ->
+  flag_of st' k = Some true.
 Proof.
   induction tr as [|l tr IH]; simpl; intros st st' k H F N.
   - inversion H; subst; auto.
-  - destruct (step fx st l) eqn:E; try discriminate. eapply IH; eauto.
-    destruct (N l (or_introl eq_refl)). eapply flag_stays_true; eauto.
+  - destruct (step pv st l) eqn:E; try discriminate. eapply IH; eauto.
+    destruct (N l (or_introl eq_refl)) as [N1 [N2 N3]]. eapply flag_stays_true; eauto.
 Qed.
 
-Lemma check_outcome : forall fx st k s r, nth_error (st_sess st) k = Some s -> s_w s = WRun r ->
-  exists st', step fx st (LWorker k WACheck) = Some st' /\
+Lemma check_outcome : forall pv st k s r, nth_error (st_sess st) k = Some s -> s_w s = WRun r ->
+  exists st', step pv st (LWorker k WACheck) = Some st' /\
     (if s_flag s then wpc_of st' k = Some (WStop r RInterrupted) /\ flag_of st' k = Some false
      else wpc_of st' k = Some (WRun r) /\ flag_of st' k = Some false).
 Proof.
-  intros fx st k s r Ek Ew. simpl. rewrite Ek. unfold worker_step. rewrite Ew.
+  intros pv st k s r Ek Ew. simpl. rewrite Ek. unfold worker_step. rewrite Ew.
   pose proof (nth_lt _ _ _ _ Ek) as Hlt.
   destruct (s_flag s) eqn:Ef; eexists; (split; [reflexivity|]); unfold wpc_of, flag_of; simpl;
     rewrite nth_upd_same by auto; simpl; rewrite ?Ew, ?Ef; auto.
 Qed.
 
 (* C31 interrupt_running *)
-Lemma interrupt_running_lemma : forall fx st tr st' k r,
-  flag_of st k = Some true -> exec fx st tr = Some st' ->
-  (forall l, In l tr -> l <> LWorker k WAReset /\ l <> LWorker k WACheck) ->
+Lemma interrupt_running_lemma : forall pv st tr st' k r,
+  flag_of st k = Some true -> exec pv st tr = Some st' ->
+  (forall l, In l tr -> l <> LWorker k WAReset /\ l <> LWorker k WACheck /\ l <> LWorker k WADone) ->
   wpc_of st' k = Some (WRun r) ->
-  exists st'', step fx st' (LWorker k WACheck) = Some st'' /\
+  exists st'', step pv st' (LWorker k WACheck) = Some st'' /\
                wpc_of st'' k = Some (WStop r RInterrupted) /\ flag_of st'' k = Some false.
 Proof.
-  intros fx st tr st' k r F H N W. pose proof (flag_true_until fx tr st st' k H F N) as F'.
+  intros pv st tr st' k r F H N W. pose proof (flag_true_until pv tr st st' k H F N) as F'.
   unfold wpc_of, flag_of in *. destruct (nth_error (st_sess st') k) as [s|] eqn:Ek; try discriminate.
-  inversion W as [W']. inversion F' as [F'']. destruct (check_outcome fx st' k s r Ek W') as [st'' [Hs Ho]].
+  inversion W as [W']. inversion F' as [F'']. destruct (check_outcome pv st' k s r Ek W') as [st'' [Hs Ho]].
   rewrite F'' in Ho. exists st''. unfold wpc_of, flag_of in Ho. tauto.
 Qed.
 
@@ -822,11 +840,11 @@ Definition stat_of_pc (pc : wpc) : option (rid * status) :=
   | _ => None
   end.
 
-Lemma worker_stat : forall fx k s a s' e r sx, worker_step fx k s a = Some (s', e) ->
+Lemma worker_stat : forall pv k s a s' e r sx, worker_step pv k s a = Some (s', e) ->
   stat_of_pc (s_w s) = Some (r, sx) ->
   stat_of_pc (s_w s') = Some (r, sx) \/ e = ESend (MDone r sx).
 Proof.
-  intros fx k s a s' e r sx H St. unfold worker_step in H.
+  intros pv k s a s' e r sx H St. unfold worker_step in H.
   inv_step H; split_all; simpl in *; rw_eqs; inj_some; auto; try discriminate;
     try (match goal with E : s_w ?s = _, H : stat_of_pc (s_w ?s) = _ |- _ => rewrite E in H; simpl in H; inj_some end; auto);
     try (destruct res; simpl; auto).
@@ -838,37 +856,38 @@ Proof.
     rewrite Nat.eqb_refl; lia.
 Qed.
 
-Lemma sent_grows_step : forall fx st l st', step fx st l = Some st' ->
+Lemma sent_grows_step : forall pv st l st', step pv st l = Some st' ->
   st_sent st' = st_sent st \/ exists m, st_sent st' = m :: st_sent st.
 Proof.
-  intros fx st l st' H. destruct l; simpl in H.
+  intros pv st l st' H. destruct l; simpl in H.
   - destruct (st_rd st); try discriminate. inversion H; subst; auto.
   - unfold reader_step in H. inv_step H; simpl; eauto.
   - destruct (nth_error (st_sess st) k); try discriminate.
-    destruct (worker_step fx k s a) as [[s' e]|]; try discriminate. inversion H; subst. destruct e; simpl; eauto.
+    destruct (worker_step pv k s a) as [[s' e]|]; try discriminate. inversion H; subst. destruct e; simpl; eauto.
   - destruct (nth_error (st_sess st) k); try discriminate.
     destruct (flusher_step k s a) as [[s' e]|]; try discriminate. inversion H; subst. destruct e; simpl; eauto.
   - destruct (st_chan st); try discriminate. inversion H; subst; auto.
-  - destruct (nth_error (st_sess st) k); try discriminate. inversion H; subst; auto.
+  - destruct (nth_error (st_sess st) k); try discriminate.
+    match type of H with context [if ?b then _ else _] => destruct b end; inversion H; subst; auto.
 Qed.
 
-Lemma sent_grows : forall fx tr st st', exec fx st tr = Some st' -> exists ext, st_sent st' = ext ++ st_sent st.
+Lemma sent_grows : forall pv tr st st', exec pv st tr = Some st' -> exists ext, st_sent st' = ext ++ st_sent st.
 Proof.
   induction tr as [|l tr IH]; simpl; intros st st' H.
   - inversion H; subst. exists []. reflexivity.
-  - destruct (step fx st l) eqn:E; try discriminate. destruct (IH _ _ H) as [ext Hx].
+  - destruct (step pv st l) eqn:E; try discriminate. destruct (IH _ _ H) as [ext Hx].
     destruct (sent_grows_step _ _ _ _ E) as [Hs|[m Hs]]; rewrite Hs in Hx.
     + eauto.
     + exists (ext ++ [m]). rewrite <- app_assoc. exact Hx.
 Qed.
 
-Lemma done_status_fixed : forall fx st r sx tr st' s', Inv st ->
+Lemma done_status_fixed : forall pv st r sx tr st' s', Inv st ->
   (exists pre, st_sent st = MDone r sx :: pre /\ done_cnt r pre = 0) ->
-  exec fx st tr = Some st' -> In (MDone r s') (st_sent st') -> s' = sx.
+  exec pv st tr = Some st' -> In (MDone r s') (st_sent st') -> s' = sx.
 Proof.
-  intros fx st r sx tr st' s' I [pre [Hs Hz]] H Hin.
-  pose proof (exec_preserves fx tr st st' I H) as I'. pose proof (cnt_le1 st' r I') as Hle.
-  destruct (sent_grows fx tr st st' H) as [ext Hx]. rewrite Hx, Hs in Hin, Hle.
+  intros pv st r sx tr st' s' I [pre [Hs Hz]] H Hin.
+  pose proof (exec_preserves pv tr st st' I H) as I'. pose proof (cnt_le1 st' r I') as Hle.
+  destruct (sent_grows pv tr st st' H) as [ext Hx]. rewrite Hx, Hs in Hin, Hle.
   rewrite done_cnt_app in Hle. simpl in Hle. rewrite Nat.eqb_refl in Hle.
   apply in_app_or in Hin. destruct Hin as [Hin|[Hin|Hin]].
   - apply in_done_cnt in Hin. lia.
@@ -876,9 +895,9 @@ Proof.
   - apply in_done_cnt in Hin. lia.
 Qed.
 
-Lemma status_carried : forall fx tr st st' k pc r sx s', Inv st ->
+Lemma status_carried : forall pv tr st st' k pc r sx s', Inv st ->
   wpc_of st k = Some pc -> stat_of_pc pc = Some (r, sx) ->
-  exec fx st tr = Some st' -> In (MDone r s') (st_sent st') -> s' = sx.
+  exec pv st tr = Some st' -> In (MDone r s') (st_sent st') -> s' = sx.
 Proof.
   induction tr as [|l tr IH]; simpl; intros st st' k pc r sx s' I W St H Hin.
   - inversion H; subst. exfalso. unfold wpc_of in W. destruct (nth_error (st_sess st') k) as [s|] eqn:Ek; try discriminate.
@@ -887,17 +906,17 @@ Proof.
     assert (sess_cnt r s >= 1).
     { apply (stat_live s r sx). congruence. }
     lia.
-  - destruct (step fx st l) as [st1|] eqn:E; try discriminate.
-    pose proof (step_preserves fx st l st1 I E) as I1.
+  - destruct (step pv st l) as [st1|] eqn:E; try discriminate.
+    pose proof (step_preserves pv st l st1 I E) as I1.
     unfold wpc_of in W. destruct (nth_error (st_sess st) k) as [s|] eqn:Ek; try discriminate. assert (W' : s_w s = pc) by congruence.
-    destruct (step_session fx st l st1 k s E Ek) as [s1 [Ek1 C]].
+    destruct (step_session pv st l st1 k s E Ek) as [s1 [Ek1 C]].
     assert (Hcase : stat_of_pc (s_w s1) = Some (r, sx) \/
                     (exists pre, st_sent st1 = MDone r sx :: pre /\ done_cnt r pre = 0)).
     { destruct l; simpl in C; subst; auto.
       - apply rd_change_same in C. destruct C as [C _]. rewrite C. auto.
       - destruct (Nat.eqb_spec k0 k); subst; auto. destruct C as [e C].
         assert (St' : stat_of_pc (s_w s) = Some (r, sx)) by congruence.
-        destruct (worker_stat fx k s a s1 e r sx C St') as [Hc|Hc]; auto.
+        destruct (worker_stat pv k s a s1 e r sx C St') as [Hc|Hc]; auto.
         right. simpl in E. rewrite Ek, C in E. inversion E; subst. simpl. eexists; split; [reflexivity|].
         pose proof (cnt_le1 st r I) as Hle. pose proof (sum_ge (sess_cnt r) _ _ _ Ek) as Hge. unfold live_cnt in Hle.
         assert (sess_cnt r s >= 1).
@@ -905,98 +924,38 @@ Proof.
         lia.
       - destruct (Nat.eqb_spec k0 k); subst; auto. destruct C as [e C].
         apply flusher_same in C. destruct C as [_ [C _]]. rewrite C. auto.
-      - destruct (Nat.eqb k0 k); subst; auto. }
+      - destruct (Nat.eqb k0 k); [destruct C|]; subst; auto. }
     destruct Hcase as [Hc|Hc].
     + eapply (IH st1 st' k (s_w s1)); eauto. unfold wpc_of. rewrite Ek1. reflexivity.
     + eapply done_status_fixed; eauto.
 Qed.
 
 (* an eval stopped by the flag check reports `interrupted` *)
-Lemma interrupted_status_lemma : forall fx st tr st' k r s', reachable fx st ->
+Lemma interrupted_status_lemma : forall pv st tr st' k r s', reachable pv st ->
   wpc_of st k = Some (WStop r RInterrupted) ->
-  exec fx st tr = Some st' -> In (MDone r s') (st_sent st') -> s' = StInterrupted.
+  exec pv st tr = Some st' -> In (MDone r s') (st_sent st') -> s' = StInterrupted.
 Proof.
-  intros. eapply (status_carried fx tr st st' k (WStop r RInterrupted) r StInterrupted); eauto.
+  intros. eapply (status_carried pv tr st st' k (WStop r RInterrupted) r StInterrupted); eauto.
   eapply reachable_inv; eauto.
 Qed.
 
-(* ---- idle interrupts ---- *)
-
-(* worker pcs from which no flag check can happen before the next reset: idle,
-   just dequeued, or past the evaluator's return (the "after the last check" zone) *)
-Definition pre_reset (pc : wpc) : bool :=
-  match pc with
-  | WIdle | WExited | WDequeued _ _ | WStop _ _ | WJoin _ _ | WDrain _ _ _ | WDrainSend _ _ _ _ | WSend _ _ _ => true
-  | _ => false
-  end.
-
-Lemma worker_pre_reset : forall fx k s a s' e, worker_step fx k s a = Some (s', e) ->
-  pre_reset (s_w s) = true -> a <> WAReset -> pre_reset (s_w s') = true.
-Proof.
-  intros fx k s a s' e H P N. unfold worker_step in H.
-  inv_step H; split_all; simpl in *; rw_eqs; auto; try congruence;
-    try (match goal with E : s_w ?s = _, P : pre_reset (s_w ?s) = true |- _ => rewrite E in P; simpl in P; discriminate end).
-Qed.
-
-(* an idle (or just-dequeued) worker cannot reach a flag check without first executing its reset *)
-Lemma check_needs_reset : forall fx tr st st' k pc r, wpc_of st k = Some pc -> pre_reset pc = true ->
-  exec fx st tr = Some st' -> wpc_of st' k = Some (WRun r) -> In (LWorker k WAReset) tr.
-Proof.
-  induction tr as [|l tr IH]; simpl; intros st st' k pc r W P H W'.
-  - inversion H; subst. rewrite W in W'. inversion W'; subst. discriminate.
-  - destruct (step fx st l) as [st1|] eqn:E; try discriminate.
-    unfold wpc_of in W. destruct (nth_error (st_sess st) k) as [s|] eqn:Ek; try discriminate.
-    assert (Wp : s_w s = pc) by congruence. subst pc.
-    destruct (step_session fx st l st1 k s E Ek) as [s1 [Ek1 C]].
-    assert (Hcase : l = LWorker k WAReset \/ pre_reset (s_w s1) = true).
-    { destruct l; simpl in C; subst; auto.
-      - apply rd_change_same in C. destruct C as [C _]. rewrite C. auto.
-      - destruct (Nat.eqb_spec k0 k); subst; auto. destruct C as [e C].
-        destruct a; try (right; eapply worker_pre_reset; eauto; discriminate). auto.
-      - destruct (Nat.eqb_spec k0 k); subst; auto. destruct C as [e C].
-        apply flusher_same in C. destruct C as [_ [C _]]. rewrite C. auto.
-      - destruct (Nat.eqb k0 k); subst; auto. }
-    destruct Hcase as [->|Hc]; auto. right.
-    eapply (IH st1 st' k (s_w s1) r); eauto. unfold wpc_of. rewrite Ek1. reflexivity.
-Qed.
+(* ---- flag stays down ---- *)
 
 (* no store of `true` into session k's flag along the trace *)
-Fixpoint no_flagset (fx : bool) (k : sid) (st : state) (tr : list label) : bool :=
+Fixpoint no_flagset (pv : ver) (k : sid) (st : state) (tr : list label) : bool :=
   match tr with
   | [] => true
   | l :: tr' => negb (is_flagset k st l) &&
-                match step fx st l with Some st1 => no_flagset fx k st1 tr' | None => true end
+                match step pv st l with Some st1 => no_flagset pv k st1 tr' | None => true end
   end.
 
-Lemma flag_false_until : forall fx tr st st' k, exec fx st tr = Some st' -> flag_of st k = Some false ->
-  no_flagset fx k st tr = true -> flag_of st' k = Some false.
+Lemma flag_false_until : forall pv tr st st' k, exec pv st tr = Some st' -> flag_of st k = Some false ->
+  no_flagset pv k st tr = true -> flag_of st' k = Some false.
 Proof.
   induction tr as [|l tr IH]; simpl; intros st st' k H F N.
   - inversion H; subst; auto.
-  - destruct (step fx st l) eqn:E; try discriminate. apply andb_prop in N. destruct N as [N1 N2].
+  - destruct (step pv st l) eqn:E; try discriminate. apply andb_prop in N. destruct N as [N1 N2].
     apply negb_true_iff in N1. eapply IH; eauto. eapply flag_stays_false; eauto.
-Qed.
-
-Lemma reset_makes_false : forall fx st k st1, step fx st (LWorker k WAReset) = Some st1 -> flag_of st1 k = Some false.
-Proof.
-  intros fx st k st1 H. simpl in H. destruct (nth_error (st_sess st) k) eqn:Ek; try discriminate.
-  pose proof (nth_lt _ _ _ _ Ek) as Hlt.
-  unfold worker_step in H. destruct (s_w s); try discriminate. inversion H; subst. unfold flag_of. simpl.
-  rewrite nth_upd_same by auto. reflexivity.
-Qed.
-
-(* C31 idle_interrupt_harmless: whatever was stored before the eval's own reset is gone *)
-Lemma idle_interrupt_harmless_lemma : forall fx st k st1 tr st2 r,
-  step fx st (LWorker k WAReset) = Some st1 -> exec fx st1 tr = Some st2 ->
-  no_flagset fx k st1 tr = true -> wpc_of st2 k = Some (WRun r) ->
-  exists st3, step fx st2 (LWorker k WACheck) = Some st3 /\ wpc_of st3 k = Some (WRun r).
-Proof.
-  intros fx st k st1 tr st2 r Hr Hx N W.
-  pose proof (flag_false_until fx tr st1 st2 k Hx (reset_makes_false fx st k st1 Hr) N) as F.
-  unfold wpc_of, flag_of in *. destruct (nth_error (st_sess st2) k) as [s|] eqn:Ek; try discriminate.
-  assert (W' : s_w s = WRun r) by congruence. assert (F' : s_flag s = false) by congruence.
-  destruct (check_outcome fx st2 k s r Ek W') as [st3 [Hs Ho]]. rewrite F' in Ho. exists st3.
-  unfold wpc_of in Ho. tauto.
 Qed.
 
 (* ---- close (fix-1) ---- *)
@@ -1012,7 +971,7 @@ Definition closeI (st : state) : Prop :=
   forall k s, nth_error (st_sess st) k = Some s -> s_closed s = true ->
     rd_mid_close k (st_rd st) = false -> must_flag (s_w s) = true -> s_flag s = true.
 
-Lemma worker_close : forall k s a s' e, worker_step true k s a = Some (s', e) ->
+Lemma worker_close : forall k s a s' e, worker_step VFix2 k s a = Some (s', e) ->
   (s_closed s = true -> must_flag (s_w s) = true -> s_flag s = true) ->
   s_closed s' = true -> must_flag (s_w s') = true -> s_flag s' = true.
 Proof.
@@ -1022,7 +981,7 @@ Proof.
     try (exfalso; match goal with P : _ -> true = true -> false = true |- _ => specialize (P ltac:(assumption) eq_refl); discriminate end).
 Qed.
 
-Lemma reader_close_facts : forall st a st' k s s', reader_step true st a = Some st' ->
+Lemma reader_close_facts : forall st a st' k s s', reader_step VFix2 st a = Some st' ->
   nth_error (st_sess st) k = Some s -> nth_error (st_sess st') k = Some s' ->
   s_w s' = s_w s /\
   (s_closed s' = true -> rd_mid_close k (st_rd st') = false ->
@@ -1045,11 +1004,11 @@ Proof.
     try (right; repeat split; auto; apply Nat.eqb_neq; auto; fail).
 Qed.
 
-Lemma closeI_step : forall st l st', closeI st -> step true st l = Some st' -> closeI st'.
+Lemma closeI_step : forall st l st', closeI st -> step VFix2 st l = Some st' -> closeI st'.
 Proof.
   intros st l st' CI H k s' Ek' Hc Hm Hf.
   destruct (nth_error (st_sess st) k) as [s|] eqn:Ek.
-  - destruct (step_session true st l st' k s H Ek) as [s1 [Ek1 C]]. rewrite Ek' in Ek1. inversion Ek1; subst s1. clear Ek1.
+  - destruct (step_session VFix2 st l st' k s H Ek) as [s1 [Ek1 C]]. rewrite Ek' in Ek1. inversion Ek1; subst s1. clear Ek1.
     specialize (CI k s Ek).
     destruct l; simpl in C.
     + subst. simpl in H. revert H. destruct (st_rd st) eqn:Erd; intros H; try discriminate. inversion H; subst. simpl in *.
@@ -1061,7 +1020,7 @@ Proof.
         assert (Hrd : st_rd (apply_eff st k s' e) = st_rd st) by (destruct e; reflexivity). rewrite Hrd in Hm.
         eapply worker_close; eauto.
       * subst. simpl in H. destruct (nth_error (st_sess st) k0); try discriminate.
-        destruct (worker_step true k0 s0 a) as [[s1 e]|]; try discriminate. inversion H; subst.
+        destruct (worker_step VFix2 k0 s0 a) as [[s1 e]|]; try discriminate. inversion H; subst.
         assert (Hrd : st_rd (apply_eff st k0 s1 e) = st_rd st) by (destruct e; reflexivity). rewrite Hrd in Hm. auto.
     + assert (Hrd : st_rd st' = st_rd st).
       { simpl in H. destruct (nth_error (st_sess st) k0); try discriminate.
@@ -1071,8 +1030,9 @@ Proof.
       * subst. auto.
     + subst. simpl in H. destruct (st_chan st); try discriminate. inversion H; subst. simpl in *. auto.
     + assert (Hrd : st_rd st' = st_rd st).
-      { simpl in H. destruct (nth_error (st_sess st) k0); try discriminate. inversion H; subst. reflexivity. }
-      rewrite Hrd in Hm. destruct (Nat.eqb k0 k); subst; simpl in *; auto.
+      { simpl in H. destruct (nth_error (st_sess st) k0); try discriminate.
+        match type of H with context [if ?b then _ else _] => destruct b end; inversion H; subst; reflexivity. }
+      rewrite Hrd in Hm. destruct (Nat.eqb k0 k); [destruct C|]; subst; simpl in *; auto.
   - (* session k is new in st': it is not closed *)
     exfalso. destruct l; simpl in H.
     + destruct (st_rd st); try discriminate. inversion H; subst. simpl in *. congruence.
@@ -1088,7 +1048,7 @@ Proof.
                end; try congruence.
       apply nth_app_one in Ek'. destruct Ek' as [Ek'|[_ ->]]; [congruence | simpl in Hc; discriminate].
     + destruct (nth_error (st_sess st) k0) eqn:Ek0; try discriminate.
-      destruct (worker_step true k0 s a) as [[s1 e]|]; try discriminate. inversion H; subst.
+      destruct (worker_step VFix2 k0 s a) as [[s1 e]|]; try discriminate. inversion H; subst.
       assert (Hss : st_sess (apply_eff st k0 s1 e) = upd k0 s1 (st_sess st)) by (destruct e; reflexivity).
       rewrite Hss, (nth_upd _ _ _ k _ _ Ek0) in Ek'. destruct (Nat.eqb_spec k k0); [subst; congruence | congruence].
     + destruct (nth_error (st_sess st) k0) eqn:Ek0; try discriminate.
@@ -1096,37 +1056,38 @@ Proof.
       assert (Hss : st_sess (apply_eff st k0 s1 e) = upd k0 s1 (st_sess st)) by (destruct e; reflexivity).
       rewrite Hss, (nth_upd _ _ _ k _ _ Ek0) in Ek'. destruct (Nat.eqb_spec k k0); [subst; congruence | congruence].
     + destruct (st_chan st); try discriminate. inversion H; subst. simpl in *. congruence.
-    + destruct (nth_error (st_sess st) k0) eqn:Ek0; try discriminate. inversion H; subst. simpl in *.
+    + destruct (nth_error (st_sess st) k0) eqn:Ek0; try discriminate.
+      match type of H with context [if ?b then _ else _] => destruct b end; inversion H; subst; simpl in *; try congruence.
       rewrite (nth_upd _ _ _ k _ _ Ek0) in Ek'. destruct (Nat.eqb_spec k k0); [subst; congruence | congruence].
 Qed.
 
-Lemma closeI_exec : forall tr st st', closeI st -> exec true st tr = Some st' -> closeI st'.
+Lemma closeI_exec : forall tr st st', closeI st -> exec VFix2 st tr = Some st' -> closeI st'.
 Proof.
   induction tr as [|l tr IH]; simpl; intros st st' CI H.
   - inversion H; subst; auto.
-  - destruct (step true st l) eqn:E; try discriminate. eapply IH; [|eauto]. eapply closeI_step; eauto.
+  - destruct (step VFix2 st l) eqn:E; try discriminate. eapply IH; [|eauto]. eapply closeI_step; eauto.
 Qed.
 
-Lemma closeI_reachable : forall st, reachable true st -> closeI st.
+Lemma closeI_reachable : forall st, reachable VFix2 st -> closeI st.
 Proof.
   intros st [tr H]. eapply closeI_exec; [|eauto]. intros k s Ek. destruct k; discriminate.
 Qed.
 
 (* C31 close_stops_running (code with fix-1) *)
-Lemma close_stops_running_lemma : forall st k s r, reachable true st ->
+Lemma close_stops_running_lemma : forall st k s r, reachable VFix2 st ->
   nth_error (st_sess st) k = Some s -> s_closed s = true -> rd_mid_close k (st_rd st) = false ->
   s_w s = WRun r ->
-  exists st', step true st (LWorker k WACheck) = Some st' /\ wpc_of st' k = Some (WStop r RInterrupted).
+  exists st', step VFix2 st (LWorker k WACheck) = Some st' /\ wpc_of st' k = Some (WStop r RInterrupted).
 Proof.
   intros st k s r R Ek Hc Hm Hw. pose proof (closeI_reachable st R k s Ek Hc Hm) as F.
   rewrite Hw in F. specialize (F eq_refl).
-  destruct (check_outcome true st k s r Ek Hw) as [st' [Hs Ho]]. rewrite F in Ho. exists st'. tauto.
+  destruct (check_outcome VFix2 st k s r Ek Hw) as [st' [Hs Ho]]. rewrite F in Ho. exists st'. tauto.
 Qed.
 
 (* the close handler really reaches such a state: after its two stores the
    session is closed and the reader is past the flag store *)
 Lemma close_sets_both : forall st st1 st2 r k, st_rd st = RGot r (OClose k) ->
-  step true st (LReader RAClosed) = Some st1 -> step true st1 (LReader RAFlag) = Some st2 ->
+  step VFix2 st (LReader RAClosed) = Some st1 -> step VFix2 st1 (LReader RAFlag) = Some st2 ->
   exists s, nth_error (st_sess st2) k = Some s /\ s_closed s = true /\ s_flag s = true /\
             rd_mid_close k (st_rd st2) = false.
 Proof.
@@ -1138,120 +1099,418 @@ Proof.
 Qed.
 
 (* ------------------------------------------------------------------ *)
+(* fix-2: the pending counter                                          *)
+
+(* per session: the counter counts what is queued or in the worker's hands;
+   an idle, open (not closed) session has its flag down *)
+Definition sess_v2 (s : session) : Prop :=
+  s_pending s = length (s_queue s) + busy (s_w s) /\
+  (s_pending s = 0 -> s_closed s = false -> s_flag s = false).
+
+Definition v2I (st : state) : Prop :=
+  forall k s, nth_error (st_sess st) k = Some s ->
+    sess_v2 s /\ (rd_mid_close k (st_rd st) = true -> s_closed s = true).
+
+Lemma worker_v2 : forall k s a s' e, worker_step VFix2 k s a = Some (s', e) -> sess_v2 s ->
+  sess_v2 s' /\ s_closed s' = s_closed s.
+Proof.
+  intros k s a s' e H [P I]. unfold worker_step in H. cbn [counts has_closed] in H. unfold sess_v2.
+  inv_step H; split_all; simpl in *; rw_eqs; simpl in *;
+    repeat match goal with E : s_queue ?s = _ |- _ => rewrite E in * end; simpl in *;
+    repeat match goal with E : s_w ?s = _ |- _ => rewrite E in * end; simpl in *;
+    repeat split; intros; auto; try lia; try congruence;
+    try (apply I; auto; lia).
+Qed.
+
+Lemma flusher_v2 : forall k s a s' e, flusher_step k s a = Some (s', e) -> sess_v2 s ->
+  sess_v2 s' /\ s_closed s' = s_closed s.
+Proof.
+  intros k s a s' e H [P I]. unfold flusher_step in H. unfold sess_v2.
+  inv_step H; split_all; simpl in *; repeat split; auto.
+Qed.
+
+Lemma reader_v2 : forall st a st' k s', v2I st -> reader_step VFix2 st a = Some st' ->
+  nth_error (st_sess st') k = Some s' ->
+  sess_v2 s' /\ (rd_mid_close k (st_rd st') = true -> s_closed s' = true).
+Proof.
+  intros st a st' k s' VI H Ek'. unfold reader_step in H. cbn [counts has_closed] in H. unfold sess_v2.
+  revert H. destruct a; destruct (st_rd st) eqn:Erd; intros H; try discriminate;
+    repeat match type of H with
+           | context [open_sess st ?j] => let E := fresh "Eo" in destruct (open_sess st j) eqn:E; try discriminate; try apply open_sess_some in E
+           | context [match ?x with _ => _ end] => destruct x eqn:?; try discriminate
+           end; inversion H; subst; clear H; simpl in *;
+    repeat match goal with
+           | Hj : nth_error (st_sess st) ?j = Some ?sj, Hk' : nth_error (upd ?j _ _) k = Some _ |- _ =>
+               rewrite (nth_upd _ _ _ k _ _ Hj) in Hk'; destruct (Nat.eqb_spec k j);
+               [subst; inversion Hk'; subst; simpl in *; destruct (VI _ _ Hj) as [[P I] Cl]
+               | destruct (VI _ _ Hk') as [[P I] Cl]]
+           end;
+    try (apply nth_app_one in Ek'; destruct Ek' as [Ek'|[_ ->]]; [destruct (VI _ _ Ek') as [[P I] Cl] | simpl]);
+    try (destruct (VI _ _ Ek') as [[P I] Cl]);
+    rewrite ?Erd in *; simpl in *; rewrite ?Nat.eqb_refl in *; rewrite ?app_length in *; simpl in *;
+    repeat split; intros; auto; try lia; try congruence; try discriminate;
+    try (apply I; auto; lia);
+    try (match goal with H : (_ =? _) = true |- _ => apply Nat.eqb_eq in H; subst; congruence end);
+    try (match goal with H : (?a =? ?b) = true, n : ?b <> ?a |- _ => apply Nat.eqb_eq in H; congruence end);
+    try (match goal with Hb : (?x =? 0) = false, H0 : ?x = 0 |- _ => rewrite H0 in Hb; discriminate end);
+    try (match goal with Cl : true = true -> ?c = true, H0 : ?c = false |- _ => rewrite (Cl eq_refl) in H0; discriminate end).
+Qed.
+
+Lemma v2I_step : forall st l st', v2I st -> step VFix2 st l = Some st' -> v2I st'.
+Proof.
+  intros st l st' VI H k s' Ek'. destruct l; simpl in H.
+  - revert H. destruct (st_rd st) eqn:Erd; intros H; try discriminate. inversion H; subst. simpl in *.
+    destruct (VI _ _ Ek') as [V C]. split; auto. intros; discriminate.
+  - eapply reader_v2; eauto.
+  - destruct (nth_error (st_sess st) k0) eqn:Ek0; try discriminate.
+    destruct (worker_step VFix2 k0 s a) as [[s1 e]|] eqn:Ew; try discriminate. inversion H; subst; clear H.
+    assert (Hss : st_sess (apply_eff st k0 s1 e) = upd k0 s1 (st_sess st)) by (destruct e; reflexivity).
+    assert (Hrd : st_rd (apply_eff st k0 s1 e) = st_rd st) by (destruct e; reflexivity).
+    rewrite Hss, (nth_upd _ _ _ k _ _ Ek0) in Ek'. rewrite Hrd. destruct (Nat.eqb_spec k k0).
+    + inversion Ek'; subst. destruct (VI _ _ Ek0) as [V C]. destruct (worker_v2 _ _ _ _ _ Ew V) as [V' Cs].
+      split; auto. rewrite Cs. auto.
+    + apply (VI _ _ Ek').
+  - destruct (nth_error (st_sess st) k0) eqn:Ek0; try discriminate.
+    destruct (flusher_step k0 s a) as [[s1 e]|] eqn:Ew; try discriminate. inversion H; subst; clear H.
+    assert (Hss : st_sess (apply_eff st k0 s1 e) = upd k0 s1 (st_sess st)) by (destruct e; reflexivity).
+    assert (Hrd : st_rd (apply_eff st k0 s1 e) = st_rd st) by (destruct e; reflexivity).
+    rewrite Hss, (nth_upd _ _ _ k _ _ Ek0) in Ek'. rewrite Hrd. destruct (Nat.eqb_spec k k0).
+    + inversion Ek'; subst. destruct (VI _ _ Ek0) as [V C]. destruct (flusher_v2 _ _ _ _ _ Ew V) as [V' Cs].
+      split; auto. rewrite Cs. auto.
+    + apply (VI _ _ Ek').
+  - destruct (st_chan st); try discriminate. inversion H; subst. simpl in *. apply (VI _ _ Ek').
+  - destruct (nth_error (st_sess st) k0) eqn:Ek0; try discriminate. cbn [counts andb] in H.
+    destruct (s_pending s =? 0) eqn:Ep; inversion H; subst; clear H.
+    + apply (VI _ _ Ek').
+    + simpl in *. rewrite (nth_upd _ _ _ k _ _ Ek0) in Ek'. destruct (Nat.eqb_spec k k0).
+      * inversion Ek'; subst. destruct (VI _ _ Ek0) as [[P I] C]. unfold sess_v2. simpl. repeat split; auto.
+        intros H0. rewrite H0 in Ep. discriminate.
+      * apply (VI _ _ Ek').
+Qed.
+
+Lemma v2I_exec : forall tr st st', v2I st -> exec VFix2 st tr = Some st' -> v2I st'.
+Proof.
+  induction tr as [|l tr IH]; simpl; intros st st' VI H.
+  - inversion H; subst; auto.
+  - destruct (step VFix2 st l) eqn:E; try discriminate. eapply IH; [|eauto]. eapply v2I_step; eauto.
+Qed.
+
+Lemma v2I_reachable : forall st, reachable VFix2 st -> v2I st.
+Proof. intros st [tr H]. eapply v2I_exec; [|eauto]. intros k s Ek. destruct k; discriminate. Qed.
+
+(* the flag survives every step that is not a check of session k, (old protocol)
+   a reset of k, or a finish_request of k that leaves the session idle *)
+Definition keeps_flag (k : sid) (st : state) (l : label) : bool :=
+  match l with
+  | LWorker k' WACheck | LWorker k' WAReset => negb (Nat.eqb k' k)
+  | LWorker k' WADone =>
+      negb (Nat.eqb k' k) || match pending_of st k with Some p => 2 <=? p | None => true end
+  | _ => true
+  end.
+
+Fixpoint holds_flag (pv : ver) (k : sid) (st : state) (tr : list label) : bool :=
+  match tr with
+  | [] => true
+  | l :: tr' => keeps_flag k st l &&
+                match step pv st l with Some st1 => holds_flag pv k st1 tr' | None => true end
+  end.
+
+Lemma flag_kept : forall pv st l st' k, step pv st l = Some st' -> flag_of st k = Some true ->
+  keeps_flag k st l = true -> flag_of st' k = Some true.
+Proof.
+  intros pv st l st' k H F K.
+  assert (Hd : (l <> LWorker k WAReset /\ l <> LWorker k WACheck /\ l <> LWorker k WADone) \/
+               (l = LWorker k WADone /\ exists p, pending_of st k = Some p /\ 2 <= p)).
+  { destruct l; try (left; repeat split; discriminate).
+    destruct a; try (left; repeat split; discriminate); simpl in K.
+    - left. repeat split; try discriminate. intros E. inversion E; subst. rewrite Nat.eqb_refl in K. discriminate.
+    - destruct (Nat.eqb_spec k0 k); [subst|left; repeat split; congruence]. simpl in K.
+      right. split; auto. unfold pending_of, flag_of in *. destruct (nth_error (st_sess st) k); try discriminate.
+      eexists; split; eauto. apply Nat.leb_le; auto.
+    - left. repeat split; try discriminate. intros E. inversion E; subst. rewrite Nat.eqb_refl in K. discriminate. }
+  destruct Hd as [[N1 [N2 N3]]|[-> [p [Hp Hle]]]].
+  - eapply flag_stays_true; eauto.
+  - unfold flag_of, pending_of in *. destruct (nth_error (st_sess st) k) as [s|] eqn:Ek; try discriminate.
+    change (step pv st (LWorker k WADone)) with
+      (match nth_error (st_sess st) k with
+       | Some s => match worker_step pv k s WADone with Some (s', e) => Some (apply_eff st k s' e) | None => None end
+       | None => None end) in H.
+    rewrite Ek in H. destruct (worker_step pv k s WADone) as [[s' e]|] eqn:Ew; try discriminate.
+    inversion H; subst. assert (Hn : nth_error (st_sess (apply_eff st k s' e)) k = Some s').
+    { destruct e; simpl; apply nth_upd_same; eapply nth_lt; eauto. }
+    rewrite Hn. f_equal.
+    rewrite (worker_done_keeps _ _ _ _ _ Ew); [congruence | inversion Hp; subst; auto].
+Qed.
+
+Lemma flag_held : forall pv tr st st' k, exec pv st tr = Some st' -> flag_of st k = Some true ->
+  holds_flag pv k st tr = true -> flag_of st' k = Some true.
+Proof.
+  induction tr as [|l tr IH]; simpl; intros st st' k H F K.
+  - inversion H; subst; auto.
+  - destruct (step pv st l) eqn:E; try discriminate. apply andb_prop in K. destruct K as [K1 K2].
+    eapply IH; eauto. eapply flag_kept; eauto.
+Qed.
+
+(* fix-2: an interrupt for a session with a request queued or in the worker's
+   hands is accepted: the flag is raised, RAIgnore is not possible *)
+Lemma interrupt_accepted_lemma : forall st r k s, reachable VFix2 st ->
+  st_rd st = RGot r (OInterrupt k) -> open_sess st k = Some s ->
+  (s_queue s <> [] \/ busy (s_w s) = 1) ->
+  step VFix2 st (LReader RAIgnore) = None /\
+  exists st', step VFix2 st (LReader RAFlag) = Some st' /\ flag_of st' k = Some true /\
+              st_rd st' = RSend r StDone.
+Proof.
+  intros st r k s R Erd Eo Hq. pose proof (open_sess_some _ _ _ Eo) as Ek.
+  destruct (v2I_reachable st R k s Ek) as [[P _] _].
+  assert (Hp : (s_pending s =? 0) = false).
+  { apply Nat.eqb_neq. destruct Hq as [Hq|Hq]; [destruct (s_queue s); [congruence|simpl in P; lia] | lia]. }
+  simpl. unfold reader_step. rewrite Erd, Eo. cbn [counts andb]. rewrite Hp. split; auto.
+  eexists. split; [reflexivity|]. unfold flag_of. simpl. rewrite nth_upd_same by (eapply nth_lt; eauto). auto.
+Qed.
+
+(* ... and from any state where the flag is up, as long as no check of that
+   session consumed it and the session did not go idle, it is still up: the next
+   check of whichever eval of the session runs then ends that eval *)
+Lemma interrupt_reaches_lemma : forall pv st tr st' k r,
+  flag_of st k = Some true -> exec pv st tr = Some st' -> holds_flag pv k st tr = true ->
+  wpc_of st' k = Some (WRun r) ->
+  exists st'', step pv st' (LWorker k WACheck) = Some st'' /\
+               wpc_of st'' k = Some (WStop r RInterrupted) /\ flag_of st'' k = Some false.
+Proof.
+  intros pv st tr st' k r F H K W. pose proof (flag_held pv tr st st' k H F K) as F'.
+  unfold wpc_of, flag_of in *. destruct (nth_error (st_sess st') k) as [s|] eqn:Ek; try discriminate.
+  assert (W' : s_w s = WRun r) by congruence. assert (F'' : s_flag s = true) by congruence.
+  destruct (check_outcome pv st' k s r Ek W') as [st'' [Hs Ho]].
+  rewrite F'' in Ho. exists st''. unfold wpc_of, flag_of in Ho. tauto.
+Qed.
+
+(* finish_request does not clear the flag while another request is queued *)
+Lemma done_with_queue_keeps : forall st k s, reachable VFix2 st -> nth_error (st_sess st) k = Some s ->
+  s_w s = WFinishing -> s_queue s <> [] -> 2 <= s_pending s.
+Proof.
+  intros st k s R Ek Hw Hq. destruct (v2I_reachable st R k s Ek) as [[P _] _]. rewrite Hw in P. simpl in P.
+  destruct (s_queue s); [congruence | simpl in P; lia].
+Qed.
+
+(* fix-2: an interrupt for an idle session stores nothing *)
+Lemma idle_interrupt_ignored_lemma : forall st r k s, reachable VFix2 st ->
+  st_rd st = RGot r (OInterrupt k) -> open_sess st k = Some s ->
+  s_queue s = [] -> busy (s_w s) = 0 ->
+  step VFix2 st (LReader RAFlag) = None /\
+  (s_closed s = false -> s_flag s = false) /\
+  exists st', step VFix2 st (LReader RAIgnore) = Some st' /\ st_sess st' = st_sess st /\
+              st_rd st' = RSend r StDone.
+Proof.
+  intros st r k s R Erd Eo Hq Hb. pose proof (open_sess_some _ _ _ Eo) as Ek.
+  destruct (v2I_reachable st R k s Ek) as [[P I] _]. rewrite Hq, Hb in P. simpl in P.
+  simpl. unfold reader_step. rewrite Erd, Eo. cbn [counts andb]. rewrite P. simpl.
+  repeat split; auto. eexists. split; [reflexivity|]. auto.
+Qed.
+
+(* fix-2: idle and open => flag down (this is what makes a late or idle interrupt harmless) *)
+Lemma idle_flag_down : forall st k s, reachable VFix2 st -> nth_error (st_sess st) k = Some s ->
+  s_queue s = [] -> busy (s_w s) = 0 -> s_closed s = false -> s_flag s = false.
+Proof.
+  intros st k s R Ek Hq Hb Hc. destruct (v2I_reachable st R k s Ek) as [[P I] _].
+  apply I; auto. rewrite P, Hq, Hb. reflexivity.
+Qed.
+
+(* with the flag down and no new store, every check passes *)
+Lemma check_passes_lemma : forall pv st tr st' k r, flag_of st k = Some false ->
+  exec pv st tr = Some st' -> no_flagset pv k st tr = true -> wpc_of st' k = Some (WRun r) ->
+  exists st'', step pv st' (LWorker k WACheck) = Some st'' /\ wpc_of st'' k = Some (WRun r).
+Proof.
+  intros pv st tr st' k r F H N W. pose proof (flag_false_until pv tr st st' k H F N) as F'.
+  unfold wpc_of, flag_of in *. destruct (nth_error (st_sess st') k) as [s|] eqn:Ek; try discriminate.
+  assert (W' : s_w s = WRun r) by congruence. assert (F'' : s_flag s = false) by congruence.
+  destruct (check_outcome pv st' k s r Ek W') as [st'' [Hs Ho]]. rewrite F'' in Ho. exists st''.
+  unfold wpc_of in Ho. tauto.
+Qed.
+
+(* ------------------------------------------------------------------ *)
 (* concrete traces (vm_compute)                                        *)
 
+(* what the worker of session k does between taking a request and spawning the flusher *)
+Definition pickup (pv : ver) (k : sid) : list label :=
+  match pv with
+  | VAsFound => [LWorker k WADequeue; LWorker k WAReset]
+  | VFix1 => [LWorker k WADequeue; LWorker k WAReset; LWorker k WALoadClosed]
+  | VFix2 => [LWorker k WADequeue; LWorker k WALoadClosed]
+  end.
+(* ... and after its last response *)
+Definition wrapup (pv : ver) (k : sid) : list label :=
+  match pv with VFix2 => [LWorker k WADone] | _ => [] end.
+
 (* one session; request 1 = eval that prints "7" on stdout and "8","9" on
-   stderr; the flusher takes "7" mid-eval, the final drain takes the rest *)
+   stderr; the flusher takes "7" and "8" mid-eval, the final drain takes "9" *)
 Definition demo_trace : list label :=
   [ LRecv OClone; LReader RANew; LReader RASend; LWriter;
-    LRecv (OSess 0 KEval); LReader RAEnq;
-    LWorker 0 WADequeue; LWorker 0 WAReset; LWorker 0 WALoadClosed; LWorker 0 (WABegin BSpawn);
+    LRecv (OSess 0 KEval); LReader RAEnq ] ++ pickup VFix2 0 ++
+  [ LWorker 0 (WABegin BSpawn);
     LWorker 0 WACheck; LWorker 0 (WAPrint SOut 7); LWorker 0 (WAPrint SErr 8);
     LFlusher 0 FATimeout; LFlusher 0 FATake;
     LFlusher 0 FASend; LFlusher 0 FATake; LWorker 0 (WAPrint SErr 9); LFlusher 0 FASend;
     LWorker 0 WACheck; LWorker 0 (WAFinish (ROk 1)); LWorker 0 WAStopFl; LFlusher 0 FAStop; LWorker 0 WAJoin;
-    LWorker 0 WATake; LWorker 0 WATake; LWorker 0 WASend; LWorker 0 WASend; LWorker 0 WASend;
-    LWriter; LWriter; LWriter; LWriter; LWriter ].
+    LWorker 0 WATake; LWorker 0 WATake; LWorker 0 WASend; LWorker 0 WASend; LWorker 0 WASend ] ++ wrapup VFix2 0 ++
+  [ LWriter; LWriter; LWriter; LWriter; LWriter ].
 
 Definition demo_state : state :=
-  match exec true init demo_trace with Some st => st | None => init end.
+  match exec VFix2 init demo_trace with Some st => st | None => init end.
 
-Lemma demo_ok : exec true init demo_trace = Some demo_state /\ quiescent demo_state = true /\
+Lemma demo_ok : exec VFix2 init demo_trace = Some demo_state /\ quiescent demo_state = true /\
   st_wire demo_state = [MDone 1 StDone; MText 0 1; MOut 0 1 SErr [9]; MOut 0 1 SErr [8]; MOut 0 1 SOut [7]; MDone 0 StDone] /\
   ptoks 0 1 SErr (st_printed demo_state) = [8; 9] /\ ptoks 0 1 SOut (st_printed demo_state) = [7].
 Proof. vm_compute. repeat split. Qed.
 
-Lemma demo_reachable : reachable true demo_state.
+Lemma demo_reachable : reachable VFix2 demo_state.
 Proof. exists demo_trace. apply demo_ok. Qed.
 
-(* eval started, interrupt handled after the reset: interrupted at the next check *)
-Definition interrupt_trace : list label :=
+(* eval started, interrupt handled while it runs: interrupted at the next check (all variants) *)
+Definition interrupt_trace (pv : ver) : list label :=
   [ LRecv OClone; LReader RANew; LReader RASend;
-    LRecv (OSess 0 KEval); LReader RAEnq;
-    LWorker 0 WADequeue; LWorker 0 WAReset; LWorker 0 WALoadClosed; LWorker 0 (WABegin BSpawn); LWorker 0 WACheck;
+    LRecv (OSess 0 KEval); LReader RAEnq ] ++ pickup pv 0 ++
+  [ LWorker 0 (WABegin BSpawn); LWorker 0 WACheck;
     LRecv (OInterrupt 0); LReader RAFlag; LReader RASend ].
 
-Lemma interrupt_demo : forall fx,
-  match exec fx init (if fx then interrupt_trace else filter (fun l => match l with LWorker _ WALoadClosed => false | _ => true end) interrupt_trace) with
+Lemma interrupt_demo : forall pv,
+  match exec pv init (interrupt_trace pv) with
   | Some st => flag_of st 0 = Some true /\ wpc_of st 0 = Some (WRun 1) /\
-               match step fx st (LWorker 0 WACheck) with
+               match step pv st (LWorker 0 WACheck) with
                | Some st' => wpc_of st' 0 = Some (WStop 1 RInterrupted)
                | None => False
                end
   | None => False
   end.
-Proof. destruct fx; vm_compute; repeat split. Qed.
+Proof. destruct pv; vm_compute; repeat split. Qed.
 
-(* THE LOST INTERRUPT (by design, both variants): the interrupt is handled after
-   the eval was queued but before the worker's reset; the reset erases it and
-   the eval's checks see `false`. *)
-Definition lost_interrupt_trace (fx : bool) : list label :=
+(* THE LOST INTERRUPT of the old protocol (as found and fix-1): the interrupt is
+   handled after the eval was queued but before the worker's reset; the reset
+   erases it and the eval's checks see `false`. *)
+Definition early_interrupt_trace (pv : ver) : list label :=
   [ LRecv OClone; LReader RANew; LReader RASend;
     LRecv (OSess 0 KEval); LReader RAEnq;
-    LRecv (OInterrupt 0); LReader RAFlag; LReader RASend;
-    LWorker 0 WADequeue; LWorker 0 WAReset ] ++ (if fx then [LWorker 0 WALoadClosed] else []) ++
-  [ LWorker 0 (WABegin BSpawn); LWorker 0 WACheck ].
+    LRecv (OInterrupt 0); LReader RAFlag; LReader RASend ] ++ pickup pv 0 ++
+  [ LWorker 0 (WABegin BSpawn) ].
 
-Lemma interrupt_before_reset_is_lost : forall fx,
-  match exec fx init (lost_interrupt_trace fx) with
+Lemma interrupt_lost_old_protocol : forall pv, counts pv = false ->
+  match exec pv init (early_interrupt_trace pv) with
   | Some st => wpc_of st 0 = Some (WRun 1) /\ flag_of st 0 = Some false /\
-               In (MDone 2 StDone) (st_sent st)          (* the interrupt itself was acknowledged *)
+               In (MDone 2 StDone) (st_sent st) /\          (* the interrupt itself was acknowledged *)
+               match step pv st (LWorker 0 WACheck) with
+               | Some st' => wpc_of st' 0 = Some (WRun 1)    (* the eval runs on *)
+               | None => False
+               end
   | None => False
   end.
-Proof. destruct fx; vm_compute; auto. Qed.
+Proof. destruct pv; intros H; try discriminate; vm_compute; auto. Qed.
 
-(* THE DEFECT (code as found, fx = false): close handled before the worker's
+(* the same client schedule with fix-2: the flag is still up when the eval starts *)
+Lemma early_interrupt_stops_eval_fix2 :
+  match exec VFix2 init (early_interrupt_trace VFix2) with
+  | Some st => wpc_of st 0 = Some (WRun 1) /\ flag_of st 0 = Some true /\
+               match step VFix2 st (LWorker 0 WACheck) with
+               | Some st' => wpc_of st' 0 = Some (WStop 1 RInterrupted)
+               | None => False
+               end
+  | None => False
+  end.
+Proof. vm_compute; auto. Qed.
+
+(* fix-2: interrupt while idle, then an eval: the interrupt stores nothing (RAFlag
+   is not even enabled), the eval's check passes *)
+Definition idle_interrupt_trace : list label :=
+  [ LRecv OClone; LReader RANew; LReader RASend;
+    LRecv (OInterrupt 0); LReader RAIgnore; LReader RASend;
+    LRecv (OSess 0 KEval); LReader RAEnq ] ++ pickup VFix2 0 ++ [ LWorker 0 (WABegin BSpawn) ].
+
+Lemma idle_interrupt_demo :
+  match exec VFix2 init idle_interrupt_trace with
+  | Some st => wpc_of st 0 = Some (WRun 2) /\ flag_of st 0 = Some false
+  | None => False
+  end /\
+  exec VFix2 init [ LRecv OClone; LReader RANew; LReader RASend; LRecv (OInterrupt 0); LReader RAFlag ] = None.
+Proof. vm_compute; auto. Qed.
+
+(* fix-2: a LATE interrupt (after the eval's last check) is accepted, never
+   observed, and cleared by finish_request: the next eval starts with the flag down *)
+Definition late_interrupt_trace : list label :=
+  [ LRecv OClone; LReader RANew; LReader RASend;
+    LRecv (OSess 0 KEval); LReader RAEnq ] ++ pickup VFix2 0 ++
+  [ LWorker 0 (WABegin BSpawn); LWorker 0 WACheck; LWorker 0 (WAFinish (ROk 1));
+    LRecv (OInterrupt 0); LReader RAFlag; LReader RASend;
+    LWorker 0 WAStopFl; LFlusher 0 FAStop; LWorker 0 WAJoin; LWorker 0 WATake; LWorker 0 WATake;
+    LWorker 0 WASend; LWorker 0 WASend; LWorker 0 WADone;
+    LRecv (OSess 0 KEval); LReader RAEnq ] ++ pickup VFix2 0 ++ [ LWorker 0 (WABegin BSpawn) ].
+
+Lemma late_interrupt_demo :
+  match exec VFix2 init late_interrupt_trace with
+  | Some st => wpc_of st 0 = Some (WRun 3) /\ flag_of st 0 = Some false /\ In (MDone 1 StDone) (st_sent st)
+  | None => False
+  end.
+Proof. vm_compute; auto. Qed.
+
+(* THE close DEFECT (code as found): close handled before the worker's
    reset.  The session is closed (acknowledged `session-closed`), the eval then
    starts, its flag is false, it is not stopped, and no later request can reach
    it (the session is no longer in the table). *)
 Definition close_race_trace : list label :=
   [ LRecv OClone; LReader RANew; LReader RASend;
     LRecv (OSess 0 KEval); LReader RAEnq;
-    LRecv (OClose 0); LReader RAFlag; LReader RADrop; LReader RASend;
-    LWorker 0 WADequeue; LWorker 0 WAReset; LWorker 0 (WABegin BSpawn); LWorker 0 WACheck ].
+    LRecv (OClose 0); LReader RAFlag; LReader RADrop; LReader RASend ] ++ pickup VAsFound 0 ++
+  [ LWorker 0 (WABegin BSpawn); LWorker 0 WACheck ].
 
 Lemma close_stops_running_refuted_asis :
-  exists st, exec false init close_race_trace = Some st /\
+  exists st, exec VAsFound init close_race_trace = Some st /\
     In (MDone 2 StSessionClosed) (st_sent st) /\
     open_sess st 0 = None /\
     wpc_of st 0 = Some (WRun 1) /\ flag_of st 0 = Some false /\
-    (forall st', step false st (LWorker 0 WACheck) = Some st' -> wpc_of st' 0 = Some (WRun 1)).
+    (forall st', step VAsFound st (LWorker 0 WACheck) = Some st' -> wpc_of st' 0 = Some (WRun 1)).
 Proof.
   eexists. split; [vm_compute; reflexivity|]. repeat split; try (vm_compute; auto; fail).
   intros st' H. vm_compute in H. inversion H; subst. reflexivity.
 Qed.
 
-(* the same schedule with fix-1: the worker re-raises the flag, the first check stops the eval *)
+(* the same schedule on the current code: the worker raises the flag, the first check stops the eval *)
 Definition close_race_trace_fixed : list label :=
   [ LRecv OClone; LReader RANew; LReader RASend;
     LRecv (OSess 0 KEval); LReader RAEnq;
-    LRecv (OClose 0); LReader RAClosed; LReader RAFlag; LReader RADrop; LReader RASend;
-    LWorker 0 WADequeue; LWorker 0 WAReset; LWorker 0 WALoadClosed; LWorker 0 WAReflag;
-    LWorker 0 (WABegin BSpawn); LWorker 0 WACheck ].
+    LRecv (OClose 0); LReader RAClosed; LReader RAFlag; LReader RADrop; LReader RASend ] ++ pickup VFix2 0 ++
+  [ LWorker 0 WAReflag; LWorker 0 (WABegin BSpawn); LWorker 0 WACheck ].
 
 Lemma close_race_fixed :
-  exists st, exec true init close_race_trace_fixed = Some st /\ wpc_of st 0 = Some (WStop 1 RInterrupted).
+  exists st, exec VFix2 init close_race_trace_fixed = Some st /\ wpc_of st 0 = Some (WStop 1 RInterrupted).
 Proof. eexists. split; vm_compute; reflexivity. Qed.
 
 (* a closed-session state satisfying the hypotheses of close_stops_running *)
 Lemma close_hyp_satisfiable :
-  exists st s, reachable true st /\ nth_error (st_sess st) 0 = Some s /\ s_closed s = true /\
+  exists st s, reachable VFix2 st /\ nth_error (st_sess st) 0 = Some s /\ s_closed s = true /\
     rd_mid_close 0 (st_rd st) = false /\ s_w s = WRun 1.
 Proof.
   pose (tr := [ LRecv OClone; LReader RANew; LReader RASend;
-    LRecv (OSess 0 KEval); LReader RAEnq;
-    LWorker 0 WADequeue; LWorker 0 WAReset; LWorker 0 WALoadClosed; LWorker 0 (WABegin BSpawn);
+    LRecv (OSess 0 KEval); LReader RAEnq ] ++ pickup VFix2 0 ++ [ LWorker 0 (WABegin BSpawn);
     LRecv (OClose 0); LReader RAClosed; LReader RAFlag ]).
-  destruct (exec true init tr) as [st|] eqn:E; [|vm_compute in E; discriminate].
+  destruct (exec VFix2 init tr) as [st|] eqn:E; [|vm_compute in E; discriminate].
   exists st. vm_compute in E. inversion E; subst. eexists. split; [exists tr; vm_compute; reflexivity|].
   vm_compute. repeat split.
 Qed.
 
-(* a quiescent state has no enabled internal move *)
-Lemma quiescent_stuck : forall fx st l, reachable fx st -> quiescent st = true -> internal l = true ->
-  enabled fx st l = false.
+(* an interrupt-accepted state satisfying the hypotheses of interrupt_reaches_queued_eval:
+   the eval is queued, the worker has not dequeued it *)
+Lemma accept_hyp_satisfiable :
+  exists st s, reachable VFix2 st /\ st_rd st = RGot 2 (OInterrupt 0) /\ open_sess st 0 = Some s /\
+    s_queue s <> [] /\ s_w s = WIdle.
 Proof.
-  intros fx st l R Q Il. pose proof (reachable_inv fx st R) as I. unfold enabled. unfold quiescent in Q.
+  pose (tr := [ LRecv OClone; LReader RANew; LReader RASend; LRecv (OSess 0 KEval); LReader RAEnq; LRecv (OInterrupt 0) ]).
+  destruct (exec VFix2 init tr) as [st|] eqn:E; [|vm_compute in E; discriminate].
+  exists st. vm_compute in E. inversion E; subst. eexists. split; [exists tr; vm_compute; reflexivity|].
+  vm_compute. repeat split. discriminate.
+Qed.
+
+(* a quiescent state has no enabled internal move *)
+Lemma quiescent_stuck : forall pv st l, reachable pv st -> quiescent st = true -> internal l = true ->
+  enabled pv st l = false.
+Proof.
+  intros pv st l R Q Il. pose proof (reachable_inv pv st R) as I. unfold enabled. unfold quiescent in Q.
   destruct (st_rd st) eqn:Erd; try discriminate. destruct (st_chan st) eqn:Ec; try discriminate.
   destruct l; simpl in Il; try discriminate; simpl.
   - unfold reader_step. rewrite Erd. destruct a; reflexivity.
